@@ -465,10 +465,19 @@ fn run_episode(cfg: &Cfg, fr_seed: u64, ops: &[Op], out: &mut impl Write) {
 const POLICIES: [&str; 6] = ["fifo", "lru", "lfu", "arc", "random", "tlru"];
 const FWS: [Option<f64>; 6] = [None, Some(0.1), Some(0.3), Some(1.0), Some(1.5), Some(3.0)];
 
-fn gen_cfg(rng: &mut Rng, idx: usize, only_flavour: Option<Flavour>, only_policy: Option<&str>) -> Cfg {
+fn gen_cfg(rng: &mut Rng, idx: usize, only_flavour: Option<Flavour>, only_policy: Option<&str>, crowd: bool) -> Cfg {
     let flavours = [Flavour::Global, Flavour::Thread, Flavour::Async];
     let flavour = only_flavour.unwrap_or(flavours[idx % 3]);
     let policy = only_policy.unwrap_or(POLICIES[(idx / 3) % 6]).to_string();
+    if crowd {
+        // "crowd" shape: a memory bound that holds five to eight small residents, no (or a loose) entry limit: one large
+        // newcomer displaces SEVERAL residents in one store
+        let max_mem = Some([200usize, 260, 320][rng.below(3) as usize]);
+        let limit = if rng.chance(1, 3) { Some(5 + rng.below(3) as usize) } else { None };
+        let ttl = if rng.chance(1, 3) { Some(2 + rng.below(2)) } else { None };
+        let fw = if policy == "tlru" { *rng.pick(&FWS) } else { None };
+        return Cfg { flavour, policy, limit, max_mem, ttl, fw };
+    }
     // 0: limit only, 1: mem only, 2: both, 3: neither
     let shape = match rng.below(10) {
         0..=4 => 0,
@@ -477,14 +486,14 @@ fn gen_cfg(rng: &mut Rng, idx: usize, only_flavour: Option<Flavour>, only_policy
         _ => 3,
     };
     let limit = if shape == 0 || shape == 2 { Some(1 + rng.below(4) as usize) } else { None };
-    let max_mem = if shape == 1 || shape == 2 { Some([60usize, 90, 120, 150][rng.below(4) as usize]) } else { None };
+    let max_mem = if shape == 1 || shape == 2 { Some([60usize, 90, 120, 150, 240][rng.below(5) as usize]) } else { None };
     let ttl = if rng.chance(1, 2) { Some(1 + rng.below(3)) } else { None };
     let fw = if policy == "tlru" { *rng.pick(&FWS) } else { None };
     Cfg { flavour, policy, limit, max_mem, ttl, fw }
 }
 
-fn gen_ops(rng: &mut Rng, cfg: &Cfg, n: usize, next_id: &mut u32) -> Vec<Op> {
-    let nkeys = cfg.limit.map(|l| l + 2).unwrap_or(4);
+fn gen_ops(rng: &mut Rng, cfg: &Cfg, n: usize, next_id: &mut u32, crowd: bool) -> Vec<Op> {
+    let nkeys = if crowd { 8 } else { cfg.limit.map(|l| l + 2).unwrap_or(4) };
     let keys: Vec<String> = (0..nkeys).map(|i| format!("k{i}")).collect();
     let mut ops = Vec::new();
     let mut clock: u64 = 0; // total virtual time, capped so that ages stay below the uptime
@@ -494,6 +503,13 @@ fn gen_ops(rng: &mut Rng, cfg: &Cfg, n: usize, next_id: &mut u32) -> Vec<Op> {
         let c = rng.below(100);
         if c < 40 {
             let k = if !recent.is_empty() && rng.chance(3, 4) { rng.pick(&recent).clone() } else { k };
+            // bursts of lookups of one key: unequal hit counters, so that the scored policies (LFU / ARC / TLRU) rank
+            // residents differently from their recency order (several victims of one store must each be the minimum)
+            if rng.chance(1, 4) {
+                for _ in 0..(1 + rng.below(5)) {
+                    ops.push(Op::Get(k.clone()));
+                }
+            }
             ops.push(Op::Get(k));
         } else if c < 82 {
             *next_id += 1;
@@ -502,12 +518,21 @@ fn gen_ops(rng: &mut Rng, cfg: &Cfg, n: usize, next_id: &mut u32) -> Vec<Op> {
                 None => rng.chance(1, 10),
             };
             let len = match cfg.max_mem {
+                Some(m) if crowd => {
+                    // mostly small values; every fifth store a large one (a third to all of the bound)
+                    match rng.below(5) {
+                        0 => m / 3 + rng.below((m as u64 * 2 / 3).saturating_sub(24).max(1)) as usize,
+                        _ => 4 + rng.below(8) as usize,
+                    }
+                }
                 Some(m) => {
                     // sizes around the bound: small, medium, exact fit, oversize
                     match rng.below(10) {
                         0 => m.saturating_sub(24),          // exactly max_memory
                         1 => m.saturating_sub(24) + 1,      // one byte too large
                         2 => m,                             // clearly oversize
+                        3 | 4 => 4 + rng.below(8) as usize,  // small: several residents fit, a large newcomer displaces more than one
+                        5 => (m / 2).saturating_sub(12),     // about half the bound
                         _ => 4 + rng.below((m as u64).saturating_sub(24).max(8) / 2) as usize,
                     }
                 }
@@ -603,6 +628,7 @@ fn main() {
             let max_ops: usize = args[5].parse().unwrap();
             let mut only_flavour = None;
             let mut only_policy: Option<String> = None;
+            let crowd = args[6..].iter().any(|a| a == "shape=crowd");
             for a in &args[6..] {
                 if let Some(f) = a.strip_prefix("flavour=") {
                     only_flavour = Some(match f {
@@ -619,9 +645,9 @@ fn main() {
             let mut rng = Rng::new(seed);
             let mut next_id = 0u32;
             for i in 0..episodes {
-                let cfg = gen_cfg(&mut rng, i, only_flavour, only_policy.as_deref());
+                let cfg = gen_cfg(&mut rng, i, only_flavour, only_policy.as_deref(), crowd);
                 let n = min_ops + rng.below((max_ops - min_ops + 1) as u64) as usize;
-                let ops = gen_ops(&mut rng, &cfg, n, &mut next_id);
+                let ops = gen_ops(&mut rng, &cfg, n, &mut next_id, crowd);
                 let fr_seed = rng.next();
                 write_episode(&mut out, &cfg, fr_seed, &ops);
             }
